@@ -3,7 +3,7 @@ Appendix B).  No line of /repo is changed: the names `time`, `queue`, `threading
 namespaces of the package's modules; the ECU is built with `send_message=` the virtual bus.
 
 One Sim is active at a time (the patched module names are process-global)."""
-import sys, threading as _threading, heapq, queue as _queue, types
+import sys, os, ctypes, time as _realtime, threading as _threading, heapq, queue as _queue, types
 
 K_SPIN = 3000           # iterations of the job loop at one instant that count as a busy spin
 
@@ -18,6 +18,15 @@ class SimBlocked(BaseException):
 
 class SimSpin(BaseException):
     pass
+
+
+class SimStall(BaseException):
+    """a handler of the package did not return: no event of the simulation for STALL_WALL seconds of wall-clock time while
+    code of the package was running (no virtual time passes inside a handler, so this is an endless loop).  Raised
+    asynchronously in the thread that runs it, so that the run goes on and the stall is part of the trace."""
+
+
+STALL_WALL = float(os.environ.get('J1939_STALL_WALL', '10'))
 
 
 class VT(int):
@@ -116,6 +125,7 @@ class SimThread:
         """scheduler -> thread; returns when the thread parks or ends"""
         prev = self.sim.current
         self.sim.current = self
+        self.sim.progress += 1
         self.state = 'running'
         self.sem.release()
         self.sim.main_sem.acquire()
@@ -123,6 +133,7 @@ class SimThread:
 
     def park(self):
         """thread -> scheduler"""
+        self.sim.progress += 1
         self.sim.main_sem.release()
         self.sem.acquire()
         if self.sim.killing:
@@ -155,7 +166,12 @@ class FakeQueue:
             w.gen += 1
             w.timed_out = False
             w.state = 'runnable'
-            self.sim.schedule(self.sim.now, 'resume', w)
+            if getattr(self.sim, 'eager_wake', False) and self.sim.current is None:
+                # pre-emptive schedule: the woken thread runs at once, before the call that woke it has returned
+                # (the application thread is descheduled right after the put)
+                w.switch_in()
+            else:
+                self.sim.schedule(self.sim.now, 'resume', w)
 
     def qsize(self):
         return len(self.items)
@@ -166,6 +182,8 @@ class FakeQueue:
     def get(self, block=True, timeout=None):
         sim = self.sim
         th = sim.current
+        if block and timeout is not None and timeout < 0:
+            raise ValueError("'timeout' must be a non-negative number")       # as queue.Queue.get does
         if block and th is not None:
             sim.on_wait(th, timeout)
         if self.items:
@@ -229,8 +247,31 @@ class Sim:
         self.pending = {}
         self.wait_hook = None
         self.tx_count = {}
+        self.progress = 0
+        self.stalls = 0
+        self.in_run = False
+        self.closed = False
+        self.main_ident = _threading.get_ident()
         Sim.active = self
         patch_modules(self)
+        self.watchdog = _threading.Thread(target=self._watchdog, daemon=True, name='sim:watchdog')
+        self.watchdog.start()
+
+    def _watchdog(self):
+        last, since = -1, _realtime.monotonic()
+        while not self.closed:
+            _realtime.sleep(0.25)
+            if self.progress != last or not self.in_run:
+                last, since = self.progress, _realtime.monotonic()
+                continue
+            if _realtime.monotonic() - since > (STALL_WALL if not self.stalls else 2.0):
+                th = self.current
+                tid = th.os_thread.ident if th is not None else self.main_ident
+                self.trace.append((self.now, th.owner if (th is not None and th.owner is not None) else -1, 'STALL',
+                                   th.name if th is not None else 'handler'))
+                self.stalls += 1
+                ctypes.pythonapi.PyThreadState_SetAsyncExc(ctypes.c_ulong(tid), ctypes.py_object(SimStall))
+                last, since = -1, _realtime.monotonic()
 
     # ---- time
     def time(self):
@@ -254,8 +295,16 @@ class Sim:
 
     # ---- main loop
     def run_until(self, horizon):
+        self.in_run = True
+        try:
+            self._run_until(horizon)
+        finally:
+            self.in_run = False
+
+    def _run_until(self, horizon):
         while self.events and self.events[0][0] <= horizon:
             t, _, kind, p = heapq.heappop(self.events)
+            self.progress += 1
             self.now = max(self.now, t)
             if kind == 'start':
                 p.switch_in()
@@ -294,6 +343,7 @@ class Sim:
     def close(self):
         """unwind every parked simulated thread"""
         self.killing = True
+        self.closed = True
         for th in self.threads:
             if th.state != 'dead':
                 th.sem.release()
